@@ -74,8 +74,9 @@ def hand_specs():
 # Minimal inputs for breakages of the generator that the `rt` preset steers away from (reported by the author of the
 # spec generator and re-found here). Each must stay reachable: they are always run. Several have been repaired in the
 # tree under test since (alias order below List / Map / ?, alias validator names, three-namespace cycles - now refused
-# by the compiler; string defaults with blanks, parameterless annotation types, union-tag and Timestamp route attributes,
-# class aliases and subtype roots whose names fmt_class changes); those stay as regression inputs.
+# by the compiler; string defaults with blanks, parameterless annotation types, Timestamp route attributes, class aliases
+# and subtype roots whose names fmt_class changes); those stay as regression inputs. Union-tag route attributes are a
+# listed finding (printing them as `[ns.]U.tag` was withdrawn: the import it needs can close an import cycle).
 DEFECT_SEEDS = [
     ('string-default-with-blank', [('n.stone', 'namespace n\nstruct S\n    f String = "a b"\n')]),
     ('annotation-type-without-params', [('n.stone', 'namespace n\nannotation_type T\n    "doc"\n')]),
@@ -96,10 +97,6 @@ DEFECT_SEEDS = [
                                ('b.stone', 'namespace nb\nimport nc\nstruct B\n    f nc.C\n'),
                                ('c.stone', 'namespace nc\nimport na\nstruct C\n    f na.A\n')]),
     ('route-named-bv', [('n.stone', 'namespace n\nroute bv(Void, Void, Void)\nroute zz(Void, Void, Void)\n')]),
-    ('route-attr-union-foreign-namespace', [
-        ('stone_cfg.stone', 'namespace stone_cfg\nimport m\nstruct Route\n    mode m.U = x\n'),
-        ('m.stone', 'namespace m\nunion U\n    x\n    y\n'),
-        ('f.stone', 'namespace files\nroute r(Void, Void, Void)\n    attrs\n        mode = y\n')]),
     ('namespace-named-bb', [('bb.stone', 'namespace bb\nstruct S\n    f String\n'),
                             ('n.stone', 'namespace n\nimport bb\nstruct T\n    f bb.S\n')]),
     ('alias-named-like-validator', [('n.stone', 'namespace n\nstruct Foo\n    f String\nalias Foo_validator = Foo\n'
@@ -197,7 +194,7 @@ def _ty(t):
 def _attr_kind(v):
     from stone.ir.data_types import TagRef
     if isinstance(v, TagRef):
-        return ['tagRef', _ty(v.union_data_type), v.tag_name]
+        return 'tagRef'
     if isinstance(v, (datetime.datetime, datetime.date)):
         return 'timestamp'
     return 'plain'
@@ -283,6 +280,18 @@ class _Reducer:
             return
         if isinstance(node, ast.Call):
             f = node.func
+            if isinstance(f, ast.Name) and f.id == 'TagRef' and node.args and isinstance(node.args[0], ast.Call):
+                # a printed `TagRef(Union('ns.U', [UnionField(...), ...]), 'tag')`: the model tracks the three
+                # constructor names every such text starts with (a spec may itself define a type called TagRef)
+                out.append((None, 'TagRef', None))
+                inner = node.args[0]
+                if isinstance(inner.func, ast.Name):
+                    out.append((None, inner.func.id, None))
+                    if len(inner.args) > 1 and isinstance(inner.args[1], ast.List):
+                        for e in inner.args[1].elts:
+                            if isinstance(e, ast.Call) and isinstance(e.func, ast.Name):
+                                out.append((None, e.func.id, None))
+                return
             ch = _chain(f) if isinstance(f, (ast.Name, ast.Attribute)) else None
             if ch is not None:
                 root, attrs = ch
